@@ -283,6 +283,10 @@ func (f *StreamForwarder) forwardAcks(wg *sync.WaitGroup) {
 				} else {
 					f.logger.Debug("sourceStreamClient.Send encountered EOF", tag.Error(err))
 					metrics.AdminServiceStreamTerminatedCount.WithLabelValues(append(f.metricLabelValues, "source")...).Inc()
+					// The source has ended the stream. What it sent before that, and its final status, are still being
+					// relayed by forwardReplicationMessages, which shuts the forwarder down when it gets there: stopping
+					// it now would drop those messages.
+					<-f.shutdownChan.Channel()
 				}
 				return
 			}
